@@ -641,12 +641,12 @@ func (cl *Cluster) answerLocked(nc *NodeConn, kind, cls, to string, raw []byte) 
 // CloseConns closes (from the node side) every open data connection of the node.
 func (cl *Cluster) CloseConns(name string, onlyData bool) int {
 	cl.mu.Lock()
-	defer cl.mu.Unlock()
 	n := cl.byName[name]
 	if n == nil {
+		cl.mu.Unlock()
 		return 0
 	}
-	k := 0
+	var victims []*NodeConn
 	for _, nc := range n.Conns {
 		if nc.Closed || nc.PeerEOF || (onlyData && nc.Admin) {
 			continue
@@ -655,10 +655,14 @@ func (cl *Cluster) CloseConns(name string, onlyData bool) int {
 		nc.Pending = nil
 		nc.rest = nil
 		cl.log.Add(Event{Ev: "bclose", N: n.Name, Conn: nc.Id})
-		nc.c.Close()
-		k++
+		victims = append(victims, nc)
 	}
-	return k
+	cl.mu.Unlock()
+	// Close waits for a reader that is inside its callback, and that callback takes cl.mu
+	for _, nc := range victims {
+		nc.c.Close()
+	}
+	return len(victims)
 }
 
 // Owes reports whether any open data connection still has unanswered commands.
@@ -705,9 +709,10 @@ func (cl *Cluster) Close() {
 	for _, n := range cl.Nodes {
 		n.ln.Close()
 		cl.mu.Lock()
-		for _, nc := range n.Conns {
+		cs := append([]*NodeConn(nil), n.Conns...)
+		cl.mu.Unlock()
+		for _, nc := range cs {
 			nc.c.Close()
 		}
-		cl.mu.Unlock()
 	}
 }
